@@ -17,3 +17,8 @@ def run(ctx):
         ic.rule_counted_bytes(ctx, cfg, r5)
         r6 = ctx.rule("R06.5" + sfx, "bytes handed back on exit leave no bits behind (saved bit buffer masked to the lowered num_bits)", floor=4, config=cfg)
         ic.rule_handback_mask(ctx, cfg, r6)
+        r8 = ctx.rule("R06.7" + sfx, "a state that hands look-ahead bytes back inside the decode loop masks bit_buf to the lowered num_bits", floor=1, config=cfg)
+        ic.rule_handback_mask_arms(ctx, cfg, r8)
+    # the streaming wrapper forwards the counts of the layer below unchanged, on success and on error returns alike
+    from rules import c13
+    c13.run_cfg(ctx, "H1", only=("R13.7",), prefix="R06.6/")
